@@ -11,33 +11,21 @@ From SE Require Export Base.Prelude.
 Local Open Scope N_scope.
 Local Open Scope res_scope.
 
-(* ---------- the static vector `primes` ----------
-   [live] is the vector's contents; [stale] is what the storage still holds
-   behind end() after Sieve::clear() (erase() does not overwrite it); the iterator
-   reads it through `_primes[_index - 1]`. *)
-Record vec := { live : list N; stale : list N }.
+(* ---------- the static vector `primes` ---------- *)
+Record vec := { live : list N }.
 
 Definition first10 : list N := [2; 3; 5; 7; 11; 13; 17; 19; 23; 29].
 
 Definition vec_back (v : vec) : N := last (live v) 0.
 Definition vec_size (v : vec) : N := N.of_nat (length (live v)).
-Definition vec_push_list (v : vec) (xs : list N) : vec :=
-  {| live := live v ++ xs; stale := skipn (length xs) (stale v) |}.
+Definition vec_push_list (v : vec) (xs : list N) : vec := {| live := live v ++ xs |}.
 (* _primes.erase(_primes.begin() + 10, _primes.end()) *)
-Definition vec_clear (v : vec) : vec :=
-  let tail := skipn 10 (live v) in
-  {| live := firstn 10 (live v);
-     stale := tail ++ skipn (length tail) (stale v) |}.
-(* _primes[i], reading retained storage when i >= size() *)
+Definition vec_clear (v : vec) : vec := {| live := firstn 10 (live v) |}.
+(* _primes[i]; with the library's checked build an index >= size() aborts *)
 Definition vec_get (v : vec) (i : N) : res N :=
-  let n := N.to_nat i in
-  match nth_error (live v) n with
+  match nth_error (live v) (N.to_nat i) with
   | Some x => Ok x
-  | None =>
-      match nth_error (stale v) (n - length (live v)) with
-      | Some x => Ok x
-      | None => ErrOOB i (vec_size v)
-      end
+  | None => ErrOOB i (vec_size v)
   end.
 
 (* ---------- one segment ---------- *)
@@ -142,7 +130,7 @@ Record state := {
 }.
 
 Definition init : state :=
-  {| primes := {| live := first10; stale := [] |};
+  {| primes := {| live := first10 |};
      sieve_size := 262144; clear_flag := true; iters := [] |}.
 
 Inductive op :=
@@ -187,20 +175,37 @@ Fixpoint take_le (limit : N) (l : list N) : list N :=
   | x :: r => if x <=? limit then x :: take_le limit r else []
   end.
 
+(* while (_index >= _primes.size()) {
+     extend_to = _primes.back() * 2;  if (_limit > 0 and _limit < extend_to) extend_to = _limit;
+     _extend(extend_to);
+     if (extend_to == _limit and _index >= _primes.size()) return _limit + 1;  }
+   on explicit fuel: the vector's last element at least doubles per round *)
+Fixpoint next_loop (fuel : nat) (segment : N) (v : vec) (it : iter) : res (vec * option N) :=
+  match fuel with
+  | O => ErrFuel
+  | S fuel' =>
+      if vec_size v <=? it_index it then
+        let e0 := umul (vec_back v) 2 in
+        let extend_to :=
+          if (0 <? it_limit it) && (it_limit it <? e0) then it_limit it else e0 in
+        do v1 <- extend extend_fuel segment v extend_to;
+        if (extend_to =? it_limit it) && (vec_size v1 <=? it_index it)
+        then Ok (v1, Some (uadd (it_limit it) 1))
+        else next_loop fuel' segment v1 it
+      else Ok (v, None)
+  end.
+
+Definition next_fuel : nat := 40.
+
 Definition next_prime (s : state) (id : N) (it : iter) : res (state * out) :=
-  let idx := it_index it in
-  do s1 <- (if vec_size (primes s) <=? idx then
-              do prev <- vec_get (primes s) (idx - 1);
-              let e0 := umul prev 2 in
-              let extend_to :=
-                if (0 <? it_limit it) && (it_limit it <? e0) then it_limit it else e0 in
-              do v <- extend extend_fuel (sieve_size s) (primes s) extend_to;
-              Ok (set_primes s v)
-            else Ok s);
-  if vec_size (primes s1) <=? idx then Ok (s1, OutPrime (uadd (it_limit it) 1))
-  else
-    do p <- vec_get (primes s1) idx;
-    Ok (set_iter s1 id {| it_index := idx + 1; it_limit := it_limit it |}, OutPrime p).
+  do '(v, early) <- next_loop next_fuel (sieve_size s) (primes s) it;
+  let s1 := set_primes s v in
+  match early with
+  | Some r => Ok (s1, OutPrime r)
+  | None =>
+      do p <- vec_get v (it_index it);
+      Ok (set_iter s1 id {| it_index := it_index it + 1; it_limit := it_limit it |}, OutPrime p)
+  end.
 
 Definition step (s : state) (o : op) : res (state * out) :=
   match o with
